@@ -65,13 +65,13 @@ pub fn load(text: &str) -> Result<StarkProof, String> {
 macro_rules! dispatch {
     ($layout:expr, $f:ident, $($arg:expr),*) => {
         match $layout {
-            "dex" => $f::<layout::dex::Layout>($($arg),*),
-            "dynamic" => $f::<layout::dynamic::Layout>($($arg),*),
-            "recursive" => $f::<layout::recursive::Layout>($($arg),*),
-            "recursive_with_poseidon" => $f::<layout::recursive_with_poseidon::Layout>($($arg),*),
-            "small" => $f::<layout::small::Layout>($($arg),*),
-            "starknet" => $f::<layout::starknet::Layout>($($arg),*),
-            "starknet_with_keccak" => $f::<layout::starknet_with_keccak::Layout>($($arg),*),
+            "dex" => $f::<swiftness_air::layout::dex::Layout>($($arg),*),
+            "dynamic" => $f::<swiftness_air::layout::dynamic::Layout>($($arg),*),
+            "recursive" => $f::<swiftness_air::layout::recursive::Layout>($($arg),*),
+            "recursive_with_poseidon" => $f::<swiftness_air::layout::recursive_with_poseidon::Layout>($($arg),*),
+            "small" => $f::<swiftness_air::layout::small::Layout>($($arg),*),
+            "starknet" => $f::<swiftness_air::layout::starknet::Layout>($($arg),*),
+            "starknet_with_keccak" => $f::<swiftness_air::layout::starknet_with_keccak::Layout>($($arg),*),
             o => panic!("layout {o}"),
         }
     };
